@@ -303,6 +303,41 @@ func dominatedByAny(edges []cfgEdge, b *ssa.BasicBlock) bool {
 	return false
 }
 
+// behindSince: does every path from the instruction to block b cross one of the edges?  (b is then "behind" them as
+// far as what the instruction produced is concerned — also when b is a join that other paths, which never passed the
+// instruction, reach as well.)  A path that comes back to the instruction's block starts over there.
+func behindSince(site ssa.Instruction, edges []cfgEdge, b *ssa.BasicBlock) bool {
+	if dominatedByAny(edges, b) {
+		return true
+	}
+	seen := map[*ssa.BasicBlock]bool{}
+	var walk func(x *ssa.BasicBlock) bool
+	walk = func(x *ssa.BasicBlock) bool {
+	next:
+		for _, s := range x.Succs {
+			for _, e := range edges {
+				if e.from == x && e.to == s {
+					continue next
+				}
+			}
+			if s == b {
+				return true
+			}
+			if !seen[s] && s != site.Block() {
+				seen[s] = true
+				if walk(s) {
+					return true
+				}
+			}
+		}
+		return false
+	}
+	if site.Block() == b {
+		return false
+	}
+	return !walk(site.Block())
+}
+
 // reachableFrom: blocks reachable from the instruction's block (the block
 // itself counts only for instructions after ins).
 func blocksReachableFrom(b *ssa.BasicBlock) map[*ssa.BasicBlock]bool {
